@@ -75,6 +75,28 @@ CHECKS["C05"] = {
     "note": TRUST + " The input space (all Sids) is sampled, not enumerated.",
 }
 
+CHECKS["C10"] = {
+    "technique": "deterministic simulation: seeded store histories (creates, junk, restarts, knobs); metamorphic rewrite relations between real answers of one finder party on the same reached store state",
+    "category": "exploration",
+    "text": "On reached store states (with and without injected junk) one finder party (FindInPaths local/server, FindInList, FindInAll) answers a search and its rewrites: a ',' list equals the union of its alternatives; an alias (last segment, and inside an ext filter) equals the union of its members; '**' equals the union over 0..n '/*' levels restricted to leaf types; an appended filter k=v at a wildcard position (or under '**') on a key every unfolded type owns selects exactly the unfiltered results with that value; a literal for '*' gives the subset with that value; no duplicates; every result typed and accepted by an independent matcher for the path part. Filter values are restricted to URL-safe characters (the query family of C02); filters on keys not owned by every unfolded type are gated (they deepen the search by design).",
+    "ref": "DESIGN.md 5.8",
+    "note": TRUST,
+}
+CHECKS["C16"] = {
+    "technique": "deterministic simulation: seeded store histories with random attribute data written through the real writer; Getter answers compared record by record with Finder answers and the store model on every reached state",
+    "category": "exploration",
+    "text": "Trees with random attribute data (creates with data, set/update, restarts) are queried with searches of the C07 family through GetFromPaths(local/server) and GetFromAll with every attributes subset drawn from a key set (plus a missing key and 'sid') and three sid_encode functions: one record per Sid the finder yields, in the same order; 'sid' = encoded Sid or absent; other keys = the model's overlay, or exactly the requested keys with missing ones None; GetFromAll yields nothing (no exception) for types configured without a Getter; get_one = first record or {}, get_data = that Sid's record, get_attr / sid.get_attr = one value.",
+    "ref": "DESIGN.md 5.9",
+    "note": TRUST,
+}
+CHECKS["C18"] = {
+    "technique": "deterministic simulation: seeded histories over trees with arbitrary version sets, publish chains create(get_new) with restarts, checked against a model of version sets",
+    "category": "exploration",
+    "text": "Task / version / state / file Sids (concrete, or with version '*' / '>') over reached trees with empty, dense, sparse and maximal version sets (v000, v998, v999 included; versions present for some state/extension combinations only): get_last = existing sibling with the greatest version (FindInAll existence model, other fields unchanged, empty Sid if none); get_next = version + 1 formatted like the pattern (first version without version, successor of the last existing for '*' / '>'); get_new = successor of the last existing version and not existing (no sibling: first version or own successor both accepted); beyond the last representable version the empty Sid, never an untyped one; publish chains create(get_new()) yield strictly increasing, never reused versions, also across restarts. Demo configuration only (NextGetter lives in the configuration package).",
+    "ref": "DESIGN.md 5.10",
+    "note": TRUST,
+}
+
 NOT_APPLICABLE = {
     "C01": "pure function of one string and the static template table; no history, storage, entropy or fault in it (cache effects on it are C13/C14's subject); deciding it is input generation, not simulation",
     "C02": "pure function of one Sid (constructors are deterministic re-encodings); nothing for a schedule or fault to act on",
